@@ -138,18 +138,21 @@ Section WithSerialize.
             | _ => false
             end
         | TNamed nm =>
-            match lookup_type S nm with
-            | Some (DCustom c) => match v with PNone => nl || type_is_any c | PUnset => false | _ => true end
-            | Some (DInput fs) =>
-                match v with
-                | PNone => nl
-                | PModel _ kw => forallb (fun f => match assoc (fpy snake f) kw with
-                                                   | Some x => constructible n' S snake (if_type f) true x
-                                                   | None => true end) fs
-                | _ => false
+            match v with
+            | PNone => nl || match lookup_type S nm with Some (DCustom c) => type_is_any c | _ => false end
+            | PUnset => false
+            | _ =>
+                match lookup_type S nm with
+                | Some (DInput fs) =>
+                    match v with
+                    | PModel _ kw => forallb (fun f => match assoc (fpy snake f) kw with
+                                                       | Some x => constructible n' S snake (if_type f) true x
+                                                       | None => true end) fs
+                    | _ => false
+                    end
+                | Some _ => true
+                | None => false
                 end
-            | Some _ => match v with PNone => nl | _ => true end
-            | None => false
             end
         end
     end.
@@ -426,7 +429,7 @@ Section WithSerialize.
 
   (* F10: a variable whose named type is a custom scalar with serialize, unless the variable is T! *)
   Definition var_ser (S : schema) (t : gtype) : option string :=
-    match assoc (named_of t) S with Some (DCustom c) => cfg_ser c | _ => None end.
+    match lookup_type S (named_of t) with Some (DCustom c) => cfg_ser c | _ => None end.
 
   Definition g_f10 (S : schema) (t : gtype) : bool :=
     match var_ser S t with
@@ -440,7 +443,9 @@ Section WithSerialize.
     forallb py_ok_name py && nodup_str py &&
     negb (mem_str "gql" py) &&
     negb (mem_str "query" py && mem_str "_query" py) &&
-    forallb (fun v => match var_ser S (v_type v) with Some f => negb (mem_str f py) | None => true end) vs.
+    forallb (fun v => match var_ser S (v_type v) with
+                      | Some f => negb (mem_str f py) && negb (String.eqb f "query") && negb (String.eqb f "_query")
+                      | None => true end) vs.
 End WithSerialize.
 
 (* instrumented serialize used by the harness and by the witnesses:
